@@ -387,6 +387,19 @@ class Fn:
         body = self.block(self.f.body, [])
         return f"mkF [{'; '.join(q(p) for p in names)}]\n  ({body})"
 
+    def signature(self) -> str:
+        """the python signature, names only: positional-or-keyword names, `*args` (or a bare `*` before keyword-only names), `**kws`"""
+        a = self.f.args
+        items = [x.arg for x in a.args]
+        if a.vararg:
+            items.append("*" + a.vararg.arg)
+        elif a.kwonlyargs:
+            items.append("*")
+        items += [x.arg for x in a.kwonlyargs]
+        if a.kwarg:
+            items.append("**" + a.kwarg.arg)
+        return "[" + "; ".join(q(i) for i in items) + "]"
+
     def default_terms(self) -> str:
         items = []
         for name, d in self.defaults.items():
@@ -461,6 +474,7 @@ def translate_text(src_root: Path) -> tuple[str, dict]:
            "Import ListNotations.", "Local Open Scope string_scope.", ""]
     info = {"functions": [], "calls": {}}
     graph = {}
+    sigs = []
     for coq, rel, cls, name in TARGETS:
         p = src_root / rel
         if rel not in trees:
@@ -473,6 +487,7 @@ def translate_text(src_root: Path) -> tuple[str, dict]:
         out.append(f"(* {rel} : {(cls + '.') if cls else ''}{name}, line {f.lineno} *)")
         out.append(f"Definition src_{coq} : fundef :=\n  {fn.fundef()}.")
         out.append(f"Definition defaults_{coq} : list (string * default) := {fn.default_terms()}.")
+        sigs.append(f"({q(coq)}, {fn.signature()})")
         out.append("")
         graph[name] = sorted({SIBLING_OF_PRIM[p] for p in fn.used_prims if p in SIBLING_OF_PRIM})
         info["functions"].append(f"{rel}:{name}")
@@ -495,6 +510,7 @@ def translate_text(src_root: Path) -> tuple[str, dict]:
     out.append(f"(* {rel} : the function returned by factory_weighted_tensor_unary_operator(f, fill_value=...), line {obody[0].lineno} *)")
     out.append(f"Definition src_factory : fundef :=\n  {fn.fundef()}.")
     out.append("")
+    sigs.append(f"({q('factory')}, {fn.signature()})")
     graph["factory_weighted_tensor_unary_operator"] = sorted({SIBLING_OF_PRIM[p] for p in fn.used_prims if p in SIBLING_OF_PRIM})
     info["functions"].append(f"{rel}:factory_weighted_tensor_unary_operator")
     # dunder dispatch table
@@ -516,6 +532,9 @@ def translate_text(src_root: Path) -> tuple[str, dict]:
             else:
                 bad(c, "keyword of the dispatch")
         rows.append(f"({q(d)}, ({q(c.args[2].value)}, {'true' if r else 'false'}))")
+    out.append("(* python signatures (names; `*` separates keyword-only parameters): the tie lemmas bind arguments by these names *)")
+    out.append("Definition src_signatures : list (string * list string) :=\n  [" + ";\n   ".join(sigs) + "].")
+    out.append("")
     out.append("(* the arithmetic / comparison dunder methods: (method, (operator name handed to _apply_operation, reverse)) *)")
     out.append("Definition src_dunders : list (string * (string * bool)) :=\n  [" + ";\n   ".join(rows) + "].")
     out.append("")
